@@ -18,6 +18,10 @@ HARNESS = r'''
 #include <stdio.h>
 #include <stdlib.h>
 #include <string.h>
+#ifdef __cplusplus
+extern "C"
+#endif
+size_t __sanitizer_get_allocated_size(const volatile void *p);   /* AddressSanitizer runtime: the size that was requested */
 %(includes)s
 %(helpers)s
 
@@ -62,7 +66,8 @@ int main(void) {
             sscanf(line, "%%*s %%8191s %%d %%d", a, &i1, &i2);
             char *s = buf_of_hex(a, &na);
             char *r = ShroudStrAlloc(s, i1, i2);
-            put_hex(r, (int) strlen(r) + 1); printf("\n");
+            /* the text C receives, and the room the C function has for its result (intent(inout) arguments write into this block) */
+            put_hex(r, (int) strlen(r) + 1); printf(":%%d\n", (int) __sanitizer_get_allocated_size(r));
             ShroudStrFree(r); free(s);
         } else if (!strcmp(cmd, "aa")) {
             sscanf(line, "%%*s %%8191s %%d %%d", a, &i1, &i2);
@@ -160,7 +165,9 @@ def model_to_c_format(kind, m):
         return ok == "1", ",".join("".join("%02x" % int(x) for x in s.split(" ")) for s in strs)
     bs = [int(x) for x in body.split(" ")] if body else []
     if kind == "str_alloc":
+        room = len(bs)
         bs = bs[:bs.index(0) + 1] if 0 in bs else bs
+        return ok == "1", "".join("%02x" % b for b in bs) + ":%d" % room
     return ok == "1", "".join("%02x" % b for b in bs)
 
 
@@ -285,7 +292,13 @@ def oracle(cline, got):
                     t = t[:-1]
             else:
                 t = src[:ntrim]
-            return None if unhex(got) == t + [0] else "C does not receive the text without trailing blanks, NUL terminated"
+            text, _, room = got.partition(":")
+            if unhex(text) != t + [0]:
+                return "C does not receive the text without trailing blanks, NUL terminated"
+            if int(room or -1) < nsrc + 1:
+                return ("the NUL-terminated copy handed to C has room for %s bytes, less than the Fortran variable's length %d plus the NUL: "
+                        "a result as long as the variable allows is written outside it" % (room, nsrc))
+            return None
         if p[0] == "lt":
             t = unhex(p[1])[:int(p[2])]
             while t and t[-1] == 32:
